@@ -1320,6 +1320,34 @@ func (x *Exec) execLoopUncached(fr *Frame, li *loopInfo, pred *ssa.BasicBlock, s
 			}
 		}
 	}
+	if x.FlagExits {
+		// the flag a loop of the form `for done := false; !done; ...` tests alone in its
+		// header is tracked like an accumulating slice: iterations that decide it leave
+		// the loop (flagExit), the others hand on the value they computed
+		if iff, ok := li.header.Instrs[len(li.header.Instrs)-1].(*ssa.If); ok {
+			c := iff.Cond
+			if u, ok := c.(*ssa.UnOp); ok && u.Op == token.NOT && u.Block() == li.header {
+				c = u.X
+			}
+			if ph, ok := c.(*ssa.Phi); ok && ph.Block() == li.header && entryPhi[ph] != nil && (entryPhi[ph] == tTrue || entryPhi[ph] == tFalse) {
+				onlyPhis := true
+				for _, ins := range li.header.Instrs[:len(li.header.Instrs)-1] {
+					switch v := ins.(type) {
+					case *ssa.Phi, *ssa.DebugRef:
+					case *ssa.UnOp:
+						if v.Op != token.NOT {
+							onlyPhis = false
+						}
+					default:
+						onlyPhis = false
+					}
+				}
+				if onlyPhis {
+					phiVals[ph] = entryPhi[ph]
+				}
+			}
+		}
+	}
 	head := st.clone()
 	head.vac[all.key] = true
 	delete(head.drawn, cur.key)
@@ -1731,9 +1759,11 @@ func (x *Exec) flagExit(li *loopInfo, o blockOut, phis []*ssa.Phi, pi int, cur, 
 	if li.blocks[succ] {
 		return blockOut{}, false
 	}
+	// like a break out of the body, the path keeps the marks of its (last) iteration:
+	// what it created stays distinct from what earlier iterations created
 	fo := o.fr.clone()
 	for _, p2 := range phis {
-		fo.env[p2] = x.val(o.fr, p2.Edges[pi]).subst(cur, all)
+		fo.env[p2] = x.val(o.fr, p2.Edges[pi])
 	}
 	for _, ins := range h.Instrs {
 		if u, ok := ins.(*ssa.UnOp); ok {
@@ -1745,7 +1775,7 @@ func (x *Exec) flagExit(li *loopInfo, o blockOut, phis []*ssa.Phi, pi int, cur, 
 			}
 		}
 	}
-	so := x.renameBack(o.st, cur, all)
+	so := o.st.clone()
 	so.note(token.NoPos, "the loop's flag %s is decided by this iteration: leaves the loop", ph.Name())
 	return blockOut{kind: outLoopExit, st: so, fr: fo, target: succ, from: h}, true
 }
